@@ -153,7 +153,7 @@ fn from_report(k: u8) {
     }
 }
 
-//@ prop=C28 tier=quick kind=hold
+//@ prop=C28 tier=experimental kind=hold
 //@ enc=<PriceFeedPrice as FromChainlinkReport>::from_chainlink_report, Report::{non_negative_price,non_negative_bid,non_negative_ask,last_update_timestamp,extended_market_status}, canonical_market_status, PriceFeedPrice::{new,set_flag,set_market_status}, ruint U192 pow/div (divisor 1)
 //@ bound=bid/price/ask any values below 2^128 (divisor decimals 0), any signs, any u32 observation timestamp, any optional u64 last-update timestamp, any status
 //@ stubs=find_divisor_decimals stubbed to the constant 0 (its own contract is decided by c26_find_divisor_decimals; for values < 2^128 it returns 0); Report built through the cfg(gmsol_verif) hook Report::verif_new (ABI/bigint decoding not executed)
@@ -165,7 +165,7 @@ fn c28_from_report_k0() {
     from_report(0);
 }
 
-//@ prop=C28 tier=thorough kind=hold
+//@ prop=C28 tier=experimental kind=hold
 //@ enc=<PriceFeedPrice as FromChainlinkReport>::from_chainlink_report with ruint U192 pow/div by 10
 //@ bound=bid/price/ask any values in [2^128, 2^128+2^135) shape (top limb 1..=128), divisor decimals 1
 //@ stubs=find_divisor_decimals stubbed to the constant 1 (values in that range need exactly one decimal dropped); Report::verif_new hook
